@@ -18,7 +18,7 @@ M32 = 1 << 32
 
 
 def sessions_for(exe, tier, seed):
-    n = 110 if tier == "quick" else 2500
+    n = 110 if tier == "quick" else 1600      # (2500 schedules peaked at 47 GB of resident memory on the 62 GB sandbox)
     base = seed * 1000003
 
     def fn(live, rng):
